@@ -89,6 +89,17 @@ func genRouteCase(rng *rand.Rand, flameLevel bool, nPaths int) *routeCase {
 	set := gen.GenSet(rng, cfg, 10)
 	c := &routeCase{Level: "tree", Continue: rng.Intn(4) == 0, RawPath: rng.Intn(3) == 0}
 	for _, rt := range set {
+		if rng.Intn(3) == 0 {
+			// legal, non-canonical spelling of the blanks: the registered text differs from the canonical one
+			for si := range rt.Segs {
+				for ei := range rt.Segs[si].Elems {
+					for pi := range rt.Segs[si].Elems[ei].Params {
+						rt.Segs[si].Elems[ei].Params[pi].Blanks = rng.Intn(3)
+						rt.Segs[si].Elems[ei].Params[pi].Lead = rng.Intn(3)
+					}
+				}
+			}
+		}
 		txt := rt.Render()
 		// The structure of a generated route is known from its derivation; the
 		// reference parser must agree with it (harness self-check, not a verdict).
